@@ -198,6 +198,26 @@ L:
 	i++
 	if i < 2 { goto L }
 }`,
+	// field-sensitivity shapes: one struct value whose fields take different routes through a callee
+	"fs.convertFields": `type In struct{ User, Path string }
+type Out struct{ Who, Where string }
+func sourceS1() In { return In{User: "u", Path: "p"} }
+func convert(x In) Out { var y Out; y.Who = x.User; y.Where = x.Path; return y }
+func main() { x := sourceS1(); y := convert(x); rt.Sink1(y.Who); rt.Sink3(y.Where) }`,
+	"fs.convertPtr": `type In struct{ User, Path string }
+type Out struct{ Who, Where string }
+func sourceS1() *In { return &In{User: "u", Path: "p"} }
+func convert(x *In, y *Out) { y.Who = x.User; y.Where = x.Path }
+func main() { x := sourceS1(); y := &Out{}; convert(x, y); rt.Sink1(y.Who); rt.Sink3(y.Where) }`,
+	"fs.swapNested": `type In struct{ A struct{ U, V string }; B string }
+type Out struct{ P, Q, R string }
+func sourceS1() In { return In{} }
+func conv(x In) Out { return Out{P: x.B, Q: x.A.V, R: x.A.U} }
+func main() { x := sourceS1(); y := conv(x); rt.Sink1(y.P); rt.Sink3(y.Q); rt.Sink4(y.R) }`,
+	"fs.oneFieldTainted": `type In struct{ User, Path string }
+type Out struct{ Who, Where string }
+func convert(x In) Out { var y Out; y.Who = x.User; y.Where = x.Path; return y }
+func main() { x := In{User: rt.Source1(), Path: "p"}; y := convert(x); rt.Sink1(y.Who); rt.Sink3(y.Where) }`,
 	"gen.recursive": `func gr[T any](x T, n int) T { if n == 0 { return x }; return gr(x, n-1) }
 func main() { rt.Sink1(gr(rt.Source1(), 2)); rt.Sink1(gr(1, 2)) }`,
 	"gen.typeMethod": `type Box[T any] struct{ v T }
